@@ -362,6 +362,18 @@ func (eng *Engine) constGlobalTerm(g *Gen, gl *ssa.Global) string {
 	case *types.Slice:
 		g.sc.emit("(assert (< (rb (sarr %s)) %s))", name, g.oldFrontier)
 	}
+	// scalar with a computable initialiser and no writer at all (not even the testing hook): its value is known
+	if len(eng.mutators[gl]) == 0 {
+		if v, ok := eng.evalInit(eng.globalInit[gl], 0); ok {
+			if _, _, isInt := intBits(et); isInt {
+				g.sc.emit("(assert (= %s %s))", name, smtInt(v))
+			}
+		} else if _, has := eng.globalInit[gl]; !has {
+			if _, _, isInt := intBits(et); isInt {
+				g.sc.emit("(assert (= %s 0))", name)
+			}
+		}
+	}
 	// sentinel errors created by errors.New in the initialiser: non-nil and pairwise distinct
 	if call, ok := eng.globalInit[gl].(*ssa.Call); ok {
 		if f := call.Common().StaticCallee(); f != nil && (f.String() == "errors.New" || f.String() == "fmt.Errorf") {
